@@ -553,13 +553,20 @@ static unsigned char deref(unsigned pos, ring_t *ring)
 
 static size_t bundle_ring_length(ring_t *ring)
 {
+    const size_t total = ring[0].len+ring[1].len;
     unsigned pos = 8+8;//goto first length field
     uint32_t advance = 0;
     do {
+        //No full bundle present
+        if(pos > total)
+            return 0;
         advance = deref(pos+0, ring) << (8*3) |
                   deref(pos+1, ring) << (8*2) |
                   deref(pos+2, ring) << (8*1) |
                   deref(pos+3, ring) << (8*0);
+        //The element has to fit into the remaining bytes
+        if(advance > total-pos)
+            return 0;
         if(advance)
             pos += 4+advance;
     } while(advance);
